@@ -3,6 +3,7 @@ import Just.Lemmas.SyntaxWF
 import Just.Lemmas.SyntaxRoundtrip
 import Just.Lemmas.Header
 import Just.Lemmas.Items
+import Just.Lemmas.Ast
 set_option linter.unusedSimpArgs false
 /-
 C10  Formatting preserves meaning and is idempotent.
@@ -122,6 +123,73 @@ theorem assignment_roundtrip (fuel : Nat) (a : Items.Assignment) (hw : WF a.valu
 theorem alias_roundtrip (fuel : Nat) (a : Items.Alias) (hf : a.path.length < fuel) (rest : List Tk) :
     Items.parseAlias fuel (Items.printAlias a ++ rest) = some (a, rest) :=
   Items.parseAlias_rt fuel a hf rest
+
+/-! ### whole justfiles -/
+
+/-- **Round trip of a whole justfile.**  For every list of items - recipes with doc comment, attribute lines, header and
+body; assignments and aliases with `[private]`; settings of the three forms; imports; modules; `unexport`; comments - that
+are well-formed (`WFItem`: what `parse_ast` can return; recipe names are not one of the six item keywords), printing the file
+(`Display for Ast`: every item, an empty line after each recipe and between items of different kinds, as the lexer presents
+that text - the empty line after a recipe body comes before its `Dedent`) and parsing it (`parse_ast`: attribute lines,
+keyword dispatch with look-ahead, `pop_doc_comment` with `eol_since_last_comment`) returns exactly the items, minus what the
+printer forgets (`Item.forget`: the doc comment and the attributes of a `mod` item).  In particular a comment item in front
+of a recipe is never taken for its doc comment, a doc comment is read back as the doc, and attributes come back in order.
+`litLe`, the order between two `[group(…)]` literals, is arbitrary.  (Proof: Lemmas/Ast.lean.) -/
+theorem file_roundtrip (litLe : String → String → Bool) (F : Nat) (items : List Ast.Item) (hw : ∀ it ∈ items, Ast.WFItem litLe it)
+    (hf : ∀ it ∈ items, Ast.ItemFuel (F + 2) it) (hlen : 3 * items.length ≤ F) :
+    Ast.parseAst litLe (F + 2) (Ast.printAst items) = some (items.map Ast.Item.forget) :=
+  Ast.parseAst_rt litLe F items hw hf hlen
+
+/-- … and nothing at all is lost when no module carries a doc comment or attributes -/
+theorem file_roundtrip_exact (litLe : String → String → Bool) (F : Nat) (items : List Ast.Item) (hw : ∀ it ∈ items, Ast.WFItem litLe it)
+    (hf : ∀ it ∈ items, Ast.ItemFuel (F + 2) it) (hlen : 3 * items.length ≤ F) (hm : ∀ it ∈ items, it.forget = it) :
+    Ast.parseAst litLe (F + 2) (Ast.printAst items) = some items := by
+  rw [file_roundtrip litLe F items hw hf hlen]
+  congr 1
+  induction items with
+  | nil => rfl
+  | cons it items ih =>
+    simp only [List.map_cons]
+    rw [hm it (by simp), ih (fun x hx => hw x (by simp [hx])) (fun x hx => hf x (by simp [hx])) (by simp at hlen; omega)
+      (fun x hx => hm x (by simp [hx]))]
+
+/-- **Formatting a whole file is idempotent**: what parsing the formatted file returns prints as the same tokens. -/
+theorem file_format_idempotent (litLe : String → String → Bool) (F : Nat) (items : List Ast.Item) (hw : ∀ it ∈ items, Ast.WFItem litLe it)
+    (hf : ∀ it ∈ items, Ast.ItemFuel (F + 2) it) (hlen : 3 * items.length ≤ F) :
+    (Ast.parseAst litLe (F + 2) (Ast.printAst items)).map Ast.printAst = some (Ast.printAst items) := by
+  rw [file_roundtrip litLe F items hw hf hlen]
+  simp [Ast.printAst, Ast.printItems_forget]
+
+/-- the recorded finding, in the model: the doc comment and the attributes of a module do not survive formatting
+(`# about m` / `[group('g')]` / `mod m` prints as `mod m`) -/
+example : Ast.printAst [.module false "m" none (some "about m".toList) [⟨"group", ["'g'"]⟩]] = Ast.printAst [.module false "m" none none []] := rfl
+
+/-- non-vacuity of `file_roundtrip`: a comment, a documented recipe with an attribute, a setting and an assignment -/
+example : ∀ it ∈ ([.comment "# c".toList,
+      .recipe (some "doc".toList) [⟨"private", []⟩] ⟨⟨false, "r", [], none, [], []⟩, [[.text "echo"]]⟩,
+      .set ⟨"quiet", .flag true⟩,
+      .assignment false ⟨true, "v", .str "'a'"⟩] : List Ast.Item), Ast.WFItem (fun a b => decide (a ≤ b)) it := by
+  intro it hit
+  simp only [List.mem_cons, List.mem_singleton, List.not_mem_nil, or_false] at hit
+  rcases hit with rfl | rfl | rfl | rfl
+  · show Ast.trimEnd _ = _; decide
+  · refine ⟨⟨⟨?_, ?_⟩, ⟨⟨?_, ?_, ?_, ?_⟩, ?_, ?_⟩, ?_, ?_⟩, ?_, ?_⟩
+    · intro a ha; simp at ha; subst ha; exact Ast.private_valid
+    · simp
+    · intro p hp; simp at hp
+    · intro v hv; simp at hv
+    · intro d hd; simp at hd
+    · intro d hd; simp at hd
+    · intro l hl f hf; simp at hl; subst hl; simp at hf; subst hf; trivial
+    · simp [Items.NoTrailingEmpty]
+    · intro _; unfold Ast.notItemKeyword; decide
+    · decide
+    · intro h; simp [Ast.hasAttr] at h
+    · intro d hd
+      simp at hd; subst hd
+      exact ⟨by decide, by intro c hc; simp at hc; subst hc; decide, by intro c hc; simp at hc; subst hc; decide⟩
+  · show Ast.settingForm "quiet" = some "bool"; decide
+  · exact ⟨trivial, by intro h; simp [Ast.startsUnderscore] at h⟩
 
 /-- non-vacuity: `@build target $mode='debug' +flags=(a + 'x'): clean (fetch 'src' mode) && (notify target)` -/
 example : Header.WFHeader
